@@ -380,12 +380,108 @@ func gov15Case(w *vlog.W, a *wargs, id int, rng *rand.Rand, opts harness.Options
 	objStatus := map[string]string{}
 	objTyp := map[string]string{}
 	steps := 60
+	// every fifth case opens with a script: the electorate changes while a proposal is paused. X and Y are
+	// the two candidates; P0 = freeze Y is open, X is frozen (approved), a logout of Y pauses P0, X is activated
+	// (approved) during the pause, the logout is voted down (P0 comes back), then one approval and single
+	// rejections on P0 - the tally must go by the electors available now, not by the count at the pause
+	var script []func(events map[string]bool) bool
+	if id%5 == 3 {
+		X, Y := g.admins[len(g.admins)-1], g.admins[len(g.admins)-2]
+		S := harness.AdminKey(0)
+		pids := map[string]string{}
+		submit := func(name string, tx pb.Transaction, events map[string]bool) bool {
+			res, err := world.Exec(tx)
+			if err != nil || res.Receipts[0].Status != pb.Receipt_SUCCESS {
+				g.hist = append(g.hist, fmt.Sprintf("script: %s refused", name))
+				return false
+			}
+			pid := harness.ProposalID(res.Receipts[0])
+			pids[name] = pid
+			g.open = append(g.open, pid)
+			if p, _ := g.proposal(pid); p != nil {
+				g.objOf[pid] = p.ObjId
+				objTyp[p.ObjId] = p.Typ
+				events[p.ObjId] = true
+			}
+			g.hist = append(g.hist, fmt.Sprintf("h%d script: %s -> %s", res.Height, name, pid))
+			w.Count("proposals_submitted", 1)
+			return true
+		}
+		voteAll := func(name, ballot string, events map[string]bool) bool {
+			if p, _ := g.proposal(pids[name]); p != nil {
+				events[p.ObjId] = true
+			}
+			var txs []pb.Transaction
+			for _, k := range g.admins { // the candidates too: refused while they are no admins
+				txs = append(txs, world.BVM(k, harness.AddrGov, "Vote", pb.String(pids[name]), pb.String(ballot), pb.String("reason")))
+			}
+			res, err := world.Exec(txs...)
+			if err == nil {
+				g.hist = append(g.hist, fmt.Sprintf("h%d script: every admin votes %s on %s (%s)", res.Height, ballot, pids[name], name))
+			}
+			return err == nil
+		}
+		vote := func(name string, k *harness.Key, ballot string, events map[string]bool) bool {
+			if p, _ := g.proposal(pids[name]); p != nil {
+				events[p.ObjId] = true
+			}
+			res, err := world.Exec(world.BVM(k, harness.AddrGov, "Vote", pb.String(pids[name]), pb.String(ballot), pb.String("reason")))
+			if err == nil {
+				g.hist = append(g.hist, fmt.Sprintf("h%d script: vote %s by %s on %s (%s): %v", res.Height, ballot, k.Addr.String()[:8], pids[name], name, res.Receipts[0].Status))
+				w.Count("votes_cast", 1)
+			}
+			return err == nil
+		}
+		role := func(m string, k *harness.Key) pb.Transaction {
+			return world.BVM(S, harness.AddrRole, m, pb.String(k.Addr.String()), pb.String("r"))
+		}
+		reg := func(k *harness.Key) pb.Transaction {
+			return world.BVM(S, harness.AddrRole, "RegisterRole", pb.String(k.Addr.String()), pb.String("governanceAdmin"), pb.String(""), pb.String("r"))
+		}
+		script = []func(map[string]bool) bool{
+			func(e map[string]bool) bool {
+				return submit("register X", reg(X), e) && voteAll("register X", "approve", e)
+			},
+			func(e map[string]bool) bool {
+				return submit("register Y", reg(Y), e) && voteAll("register Y", "approve", e)
+			},
+			func(e map[string]bool) bool { return submit("P0 freeze Y", role("FreezeRole", Y), e) },
+			func(e map[string]bool) bool {
+				return submit("freeze X", role("FreezeRole", X), e) && voteAll("freeze X", "approve", e)
+			},
+			func(e map[string]bool) bool { return submit("logout Y", role("LogoutRole", Y), e) },
+			func(e map[string]bool) bool {
+				if p, _ := g.proposal(pids["P0 freeze Y"]); p != nil && p.Status == "paused" {
+					g.shape["script:P0-paused"] = true
+				}
+				return submit("activate X", role("ActivateRole", X), e) && voteAll("activate X", "approve", e)
+			},
+			func(e map[string]bool) bool { return voteAll("logout Y", "reject", e) },
+			func(e map[string]bool) bool {
+				if p, _ := g.proposal(pids["P0 freeze Y"]); p != nil && p.Status == "proposed" {
+					g.shape["script:P0-restored"] = true
+					w.Count("scripts_with_restored_proposal", 1)
+				}
+				return vote("P0 freeze Y", S, "approve", e)
+			},
+		}
+		for i := 1; i < opts.NumAdmins; i++ {
+			k := harness.AdminKey(i)
+			script = append(script, func(e map[string]bool) bool { return vote("P0 freeze Y", k, "reject", e) })
+		}
+	}
 	for s := 0; s < steps; s++ {
 		g.transitionalAdmins()      // keeps the record of the admins' last settled status current
 		events := map[string]bool{} // objects with a governance event in this step
 		var actDesc string
 		x := rng.Intn(100)
 		switch {
+		case s < len(script):
+			if !script[s](events) {
+				script = nil
+				w.Count("scripts_abandoned", 1)
+			}
+			actDesc = "script"
 		case x < 22 || len(g.open) == 0:
 			if pid := g.submit(); pid != "" {
 				g.open = append(g.open, pid)
